@@ -342,7 +342,10 @@ theorem opAdd_class {o : Opts} {e : Bool} {r : Root} {op : Op} {sop : Spec.Op} {
     (h : Spec.applyOp (specOpts o) sz acc (den r.con) sop = .fail c) : OpC c (opAdd o r op) := by
   have href := opAdd_refines (o := o) sz acc he hr hk hpath hval hsval hc hq
   cases hp : Spec.parsePointer op.path with
-  | none => simp only [Spec.applyOp, hpath, hp] at h; cases h
+  | none =>
+    rw [spec_path_none (by rw [hpath]; exact hp) (by simp [hk])] at h
+    cases h
+    exact ⟨.missing, opAdd_path_none o r op he hp, ErrC_missing (Or.inr rfl)⟩
   | some toks =>
     cases toks with
     | nil =>
@@ -369,7 +372,17 @@ theorem opRemove_class {o : Opts} {e : Bool} {r : Root} {op : Op} {sop : Spec.Op
     (hk : sop.kind = .remove) (hpath : sop.path = op.path) {c : Cause}
     (h : Spec.applyOp (specOpts o) sz acc (den r.con) sop = .fail c) : OpC c (opRemove o r op) := by
   cases hp : Spec.parsePointer op.path with
-  | none => simp only [Spec.applyOp, hpath, hp] at h; cases h
+  | none =>
+    cases ha : o.allow with
+    | true =>
+      -- with AllowMissingPathOnRemove such a remove is left open by the specification
+      simp [Spec.applyOp, hpath, hp, hk, specOpts, ha] at h
+    | false =>
+      rw [spec_path_none (by rw [hpath]; exact hp) (by simp [hk, specOpts, ha])] at h
+      cases h
+      refine ⟨.missing, ?_, ErrC_missing (Or.inr rfl)⟩
+      rw [opRemove_eq, withPath_of_parsePointer_none _ _ _ hp]
+      simp [liftWalk, ha]
   | some toks =>
     cases toks with
     | nil => simp only [Spec.applyOp, hpath, hp, hk] at h; cases h
@@ -409,7 +422,10 @@ theorem opReplace_class {o : Opts} {e : Bool} {r : Root} {op : Op} {sop : Spec.O
     (h : Spec.applyOp (specOpts o) sz acc (den r.con) sop = .fail c) : OpC c (opReplace o r op) := by
   have href := opReplace_refines (o := o) sz acc hr hk hpath hval hsval hc hq
   cases hp : Spec.parsePointer op.path with
-  | none => simp only [Spec.applyOp, hpath, hp] at h; cases h
+  | none =>
+    rw [spec_path_none (by rw [hpath]; exact hp) (by simp [hk])] at h
+    cases h
+    exact ⟨.missing, opReplace_path_none o r op hp, ErrC_missing (Or.inr rfl)⟩
   | some toks =>
     cases toks with
     | nil =>
@@ -431,13 +447,71 @@ theorem opReplace_class {o : Opts} {e : Bool} {r : Root} {op : Op} {sop : Spec.O
           (withPath_class hr hp (by simp) (fun key _ => actReplace_class) hf)
       · cases hx
 
+/-- the source half of `move` fails: the class of the error is that of the source's cause -/
+theorem moveSrc_class {o : Opts} {e : Bool} {r : Root} {op : Op} {f : Bytes} {t : Bytes} {ts : List Bytes}
+    (hr : InvRoot e r) (hfo : op.frm = some f) (hpf : Spec.parsePointer f = some (t :: ts)) {c : Cause}
+    (hf : Spec.atParent (specOpts o) (Spec.removeIn (specOpts o)) (den r.con) (t :: ts) = .fail c) :
+    OpC c (opMove o r op) := by
+  have hne : f ≠ [] := fun h => by
+    have := (parsePointer_nil_iff hpf).2 h; cases this
+  rw [opMove_eq o r op f hfo hne]
+  have hw := withPath_class (o := o) (act := actMoveSrc o) hr hpf (by simp)
+    (fun key _ => actMoveSrc_class) hf
+  rcases hw with ⟨con', hw, rfl⟩ | ⟨er, hw, hcl⟩
+  · rw [hw]; exact ⟨.missing, rfl, ErrC_missing (Or.inr rfl)⟩
+  · rw [hw]; exact ⟨er, rfl, hcl⟩
+
 theorem opMove_class {o : Opts} {e : Bool} {r : Root} {op : Op} {sop : Spec.Op}
     (sz acc : Nat) (hr : InvRoot e r)
     (hk : sop.kind = .move) (hpath : sop.path = op.path) (hfrm : sop.frm = op.frm.getD [])
     (hq : ∀ toks, Spec.parsePointer op.path = some toks → ∀ t ∈ toks, QK e t = true) {c : Cause}
     (h : Spec.applyOp (specOpts o) sz acc (den r.con) sop = .fail c) : OpC c (opMove o r op) := by
   cases hp : Spec.parsePointer op.path with
-  | none => simp only [Spec.applyOp, hpath, hp] at h; cases h
+  | none =>
+    -- the destination is outside RFC 6901: the source half runs first, its failure is reported
+    rw [spec_move_path_none hk (by rw [hpath]; exact hp)] at h
+    cases hfo : op.frm with
+    | none =>
+      rw [hfo] at hfrm
+      have hnil : Spec.parsePointer sop.frm = some [] := by rw [hfrm]; rfl
+      rw [hnil] at h
+      cases h
+      exact ⟨.missing, by simp [opMove, hfo], ErrC_plain (Or.inr (Or.inl rfl)) (by simp [Special])⟩
+    | some f =>
+      rw [hfo] at hfrm
+      simp only [Option.getD_some] at hfrm
+      rw [hfrm] at h
+      cases hpf : Spec.parsePointer f with
+      | none =>
+        rw [hpf] at h
+        cases h
+        refine ⟨.missing, ?_, ErrC_missing (Or.inr rfl)⟩
+        rw [opMove_eq o r op f hfo (parsePointer_none_ne_nil hpf), withPath_of_parsePointer_none _ _ _ hpf]
+        rfl
+      | some ftoks =>
+        rw [hpf] at h
+        cases ftoks with
+        | nil =>
+          cases h
+          exact ⟨.invalid, by simp [opMove, hfo, (parsePointer_nil_iff hpf).1 rfl],
+            ErrC_plain (Or.inr (Or.inl rfl)) (by simp [Special])⟩
+        | cons t ts =>
+          simp only at h
+          rcases bind_fail h with hf | ⟨dv, hres, hrest⟩
+          · exact moveSrc_class hr hfo hpf hf
+          · cases hrest
+            have hne : f ≠ [] := fun h => by
+              have := (parsePointer_nil_iff hpf).2 h; cases this
+            have hw : WalkRef e r (fun val old => Inv e val ∧ den val = old)
+                (Spec.atParent (specOpts o) (Spec.removeIn (specOpts o)) (den r.con) (t :: ts))
+                (withPath o r f (actMoveSrc o)) :=
+              withPath_walkRef hr hpf (by simp) (fun key _ => actMoveSrc_ref)
+            rw [hres] at hw
+            simp only [WalkRef] at hw
+            obtain ⟨con', val, hw, _⟩ := hw
+            refine ⟨.missing, ?_, ErrC_missing (Or.inr rfl)⟩
+            rw [opMove_eq o r op f hfo hne, hw]
+            simp only [moveK, withPath_of_parsePointer_none _ _ _ hp, liftWalk]
   | some ptoks =>
     have hp' : Spec.parsePointer sop.path = some ptoks := by rw [hpath]; exact hp
     cases hfo : op.frm with
@@ -450,7 +524,12 @@ theorem opMove_class {o : Opts} {e : Bool} {r : Root} {op : Op} {sop : Spec.Op}
       rw [hfo] at hfrm
       simp only [Option.getD_some] at hfrm
       cases hpf : Spec.parsePointer f with
-      | none => rw [spec_move_none hk hp' (by rw [hfrm]; exact hpf)] at h; cases h
+      | none =>
+        rw [spec_move_none hk hp' (by rw [hfrm]; exact hpf)] at h
+        cases h
+        refine ⟨.missing, ?_, ErrC_missing (Or.inr rfl)⟩
+        rw [opMove_eq o r op f hfo (parsePointer_none_ne_nil hpf), withPath_of_parsePointer_none _ _ _ hpf]
+        rfl
       | some ftoks =>
         cases ftoks with
         | nil =>
@@ -523,7 +602,10 @@ theorem opTest_class (hEq : EqSpec) {o : Opts} {e : Bool} {r : Root} {op : Op} {
     (hov : ∀ c, op.value = some c → c.valueOf.noDup = true) {c : Cause}
     (h : Spec.applyOp (specOpts o) sz acc (den r.con) sop = .fail c) : OpC c (opTest o r op) := by
   cases hp : Spec.parsePointer op.path with
-  | none => simp only [Spec.applyOp, hpath, hp] at h; cases h
+  | none =>
+    rw [spec_path_none (by rw [hpath]; exact hp) (by simp [hk])] at h
+    cases h
+    exact ⟨.missing, opTest_path_none o r op hp, ErrC_missing (Or.inr rfl)⟩
   | some toks =>
     cases toks with
     | nil =>
@@ -560,17 +642,79 @@ theorem failOfW_class {α} {r : Root} {w : Walk α} {c : Cause} (h : WalkC c w) 
   · exact ⟨rfl, .missing, rfl, ErrC_missing (Or.inr rfl)⟩
   · exact ⟨rfl, er, rfl, hcl⟩
 
+/-- the source of `copy` cannot be read: the class of the error is that of the source's cause -/
+theorem copySrc_class {o : Opts} {e : Bool} {r : Root} {acci : Int} {op : Op} {f : Bytes}
+    {ft : Bytes} {fts : List Bytes}
+    (hr : InvRoot e r) (hfo : op.frm = some f) (hpf : Spec.parsePointer f = some (ft :: fts)) {c : Cause}
+    (hf : Spec.atParent (specOpts o) (Spec.getIn (specOpts o) false) (den r.con) (ft :: fts) = .fail c) :
+    OpC2 c (opCopy o r acci op) := by
+  rw [eng_opCopy_eq o r acci op f hfo]
+  have hw := withPath_class (o := o) (act := actCopySrc o) hr hpf (by simp)
+    (fun key _ => actCopySrc_class) hf
+  rw [← copySource_eq] at hw
+  have hne : f ≠ [] := fun h => by
+    have := (parsePointer_nil_iff hpf).2 h; cases this
+  rw [copyFirst_ne o r hne]
+  obtain ⟨ha, hcl⟩ := failOfW_class (r := r) hw
+  simp only [ha]
+  exact hcl
+
+/-- the source is read, the destination pointer is outside RFC 6901: nothing is found -/
+theorem opCopy_dest_none {o : Opts} {e : Bool} {r : Root} {acci : Int} {op : Op} {f : Bytes}
+    {ftoks : List Bytes} {v : Value}
+    (hr : InvRoot e r) (hfo : op.frm = some f) (hpf : Spec.parsePointer f = some ftoks)
+    (hsrc : eng_copySrc (specOpts o) (den r.con) ftoks = .ok v)
+    (hp : Spec.parsePointer op.path = none) :
+    opCopy o r acci op = .err .missing := by
+  rw [eng_opCopy_eq o r acci op f hfo]
+  have h1 := copy_phase1 (o := o) hr hpf
+  rw [hsrc] at h1
+  obtain ⟨r1, ha, _, _⟩ := h1
+  rw [ha]
+  simp only [withPath_of_parsePointer_none _ _ _ hp, eng_afterW, failOfW]
+
+/-- `copy` to a destination outside RFC 6901, whatever the limit: the source half is evaluated
+first, its failure is the one reported; otherwise nothing is found -/
+theorem opCopy_path_none_class {o : Opts} {e : Bool} {r : Root} {op : Op} {sop : Spec.Op} {f : Bytes}
+    (sz acc : Nat) (acci : Int) (hr : InvRoot e r)
+    (hk : sop.kind = .copy) (hpath : sop.path = op.path) (hfo : op.frm = some f) (hfrm : sop.frm = f)
+    (hp : Spec.parsePointer op.path = none) {c : Cause}
+    (h : Spec.applyOp (specOpts o) sz acc (den r.con) sop = .fail c) : OpC2 c (opCopy o r acci op) := by
+  rw [spec_copy_path_none hk (by rw [hpath]; exact hp), hfrm] at h
+  cases hpf : Spec.parsePointer f with
+  | none =>
+    rw [hpf] at h
+    cases h
+    exact ⟨.missing, opCopy_from_none hfo hpf, ErrC_missing (Or.inr rfl)⟩
+  | some ftoks =>
+    rw [hpf] at h
+    cases ftoks with
+    | nil =>
+      cases h
+      exact ⟨.missing, opCopy_dest_none (v := den r.con) hr hfo hpf rfl hp, ErrC_missing (Or.inr rfl)⟩
+    | cons ft fts =>
+      simp only at h
+      rcases bind_fail h with hf | ⟨pv, hres, hrest⟩
+      · exact copySrc_class hr hfo hpf hf
+      · cases hrest
+        exact ⟨.missing,
+          opCopy_dest_none (v := pv.2) hr hfo hpf (by simp only [eng_copySrc, hres, Res.bind]) hp,
+          ErrC_missing (Or.inr rfl)⟩
+
 theorem opCopy_class {o : Opts} {r : Root} {op : Op} {sop : Spec.Op} {f : Bytes}
     (sz acc : Nat) (acci : Int) (hl : o.limit = 0) (hr : InvRoot o.esc r)
     (hk : sop.kind = .copy) (hpath : sop.path = op.path) (hfo : op.frm = some f) (hfrm : sop.frm = f)
     (hq : ∀ toks, Spec.parsePointer op.path = some toks → ∀ t ∈ toks, QK o.esc t = true) {c : Cause}
     (h : Spec.applyOp (specOpts o) sz acc (den r.con) sop = .fail c) : OpC2 c (opCopy o r acci op) := by
   cases hp : Spec.parsePointer op.path with
-  | none => simp only [Spec.applyOp, hpath, hp] at h; cases h
+  | none => exact opCopy_path_none_class sz acc acci hr hk hpath hfo hfrm hp h
   | some ptoks =>
     have hp' : Spec.parsePointer sop.path = some ptoks := by rw [hpath]; exact hp
     cases hpf : Spec.parsePointer f with
-    | none => rw [spec_copy_none hk hp' (by rw [hfrm]; exact hpf)] at h; cases h
+    | none =>
+      rw [spec_copy_none hk hp' (by rw [hfrm]; exact hpf)] at h
+      cases h
+      exact ⟨.missing, opCopy_from_none hfo hpf, ErrC_missing (Or.inr rfl)⟩
     | some ftoks =>
       rw [spec_copy hk hp' (by rw [hfrm]; exact hpf) (by simp [specOpts, hl])] at h
       rw [eng_opCopy_eq o r acci op f hfo]
